@@ -28,7 +28,8 @@ CONT_FILE = "mouette/mesh/data_container.py"
 
 EXC = {"OutOfBoundsError": ".oob", "InvalidSizeError": ".size", "TypeNotMatchingError": ".type",
        "DefaultValueTypeDoesNotMatchError": ".dfltType"}
-EXC_MSG = {"Attribute does not exist": ".noAttr", "Could not append data container": ".typeError"}
+EXC_MSG = {"Attribute does not exist": ".noAttr", "Could not append data container": ".typeError",
+           "data array has invalid shape": ".size"}        # the bare `Exception` of register_array_as_attribute (no class of its own)
 
 
 # ------------------------------------------------------------------------------------------------------------------
@@ -62,6 +63,11 @@ class Norm(ast.NodeTransformer):
             if isinstance(op, ast.GtE): return ast.Compare(left=b, ops=[ast.LtE()], comparators=[a])
             if isinstance(op, (ast.Eq, ast.NotEq)) and _callfree(a) and _callfree(b) and _rank(a) > _rank(b):
                 return ast.Compare(left=b, ops=[op], comparators=[a])
+            if isinstance(op, (ast.Eq, ast.NotEq)) and _callfree(a) != _callfree(b):
+                # one operand contains a call (`len(..)`): a constant goes to the right of it, a plain name to the left
+                free, call = (a, b) if _callfree(a) else (b, a)
+                want = (call, free) if isinstance(free, ast.Constant) else (free, call) if isinstance(free, ast.Name) else (a, b)
+                if (a, b) != want: return ast.Compare(left=want[0], ops=[op], comparators=[want[1]])
         return n
 
     def visit_BinOp(self, n):
@@ -143,6 +149,7 @@ CONT_FUNCS = [
     ("DataContainer.__len__", "contLen", "cont", [], "Nat", True),
     ("_BaseDataContainer.has_attribute", "hasAttribute", "cont", ["Str"], "Bool", True),
     ("_BaseDataContainer.create_attribute", "createAttribute", "cont", ["Str", "Ty", "Nat", "Bool", "OptScalar", "OptNat"], "Self", False),
+    ("_BaseDataContainer.register_array_as_attribute", "registerArray", "cont", ["Str", "ArrIn", "OptScalar"], "Self", False),
     ("_BaseDataContainer.delete_attribute", "deleteAttribute", "cont", ["Str"], "Unit", False),
     ("_BaseDataContainer.get_attribute", "getAttribute", "cont", ["Str"], "Self", False),
     ("DataContainer.clear", "contClear", "cont", [], "Unit", False),
@@ -150,7 +157,7 @@ CONT_FUNCS = [
     ("DataContainer.__iadd__", "contIadd", "cont", ["Other"], "Unit", False),
 ]
 LEAN_TY = {"Nat": "Nat", "Int": "Int", "Bool": "Bool", "Ty": "Ty", "InVal": "InVal", "OptScalar": "Option Scalar", "OptNat": "Option Nat",
-           "Str": "String", "Other": "Other", "Unit": "Unit", "Res": "Res", "Self": "Self", "Mat": "List Val", "Scalars": "List Scalar"}
+           "Str": "String", "Other": "Other", "ArrIn": "ArrIn", "Unit": "Unit", "Res": "Res", "Self": "Self", "Mat": "List Val", "Scalars": "List Scalar"}
 LEAN_OF = {q: l for q, l, *_ in FUNCS + CONT_FUNCS}
 SELF_FIELDS = {"elemsize": ("self.elemsize", "Nat"), "n_elem": ("self.nElem", "Nat"), "type": ("self.type", "Ty"),
                "_default_value": ("self.dv", "OptScalar"), "default_value": ("(defaultValue self)", "Dflt")}
@@ -214,6 +221,9 @@ class Fn:
         if isinstance(n, ast.Attribute) and isinstance(n.value, ast.Name) and n.value.id in self.env and self.env[n.value.id][1] == "Other" \
                 and n.attr == "_data":
             return f"({self.env[n.value.id][0]}.dataOf self)", "Elems"
+        if isinstance(n, ast.Attribute) and n.attr == "shape" and isinstance(n.value, ast.Name) and n.value.id in self.env \
+                and self.env[n.value.id][1] == "ArrIn":
+            return self.env[n.value.id][0], "Shape"
         if isinstance(n, ast.UnaryOp) and isinstance(n.op, ast.Not):
             a, t = self.E(n.operand, pre)
             if t != "Bool": self.err("`not` of a non-boolean", n)
@@ -273,6 +283,20 @@ class Fn:
 
     def subscript(self, n, pre):
         base = n.value
+        if isinstance(base, ast.Attribute) and base.attr == "shape":
+            a, t = self.E(base, pre)
+            if t == "Shape" and isinstance(n.slice, ast.Constant) and n.slice.value == 0: return f"({a}.shape0 h)", "Nat"
+            if t == "Shape" and isinstance(n.slice, ast.Constant) and n.slice.value == 1:
+                if not getattr(self, "try_err", None): self.err("shape[1] may raise IndexError outside a try block", n)
+                v = self.fresh()
+                pre.append(("matchopt:" + self.try_err, f"{a}.shape1?", v)); return v, "Nat"
+            self.err("unsupported shape index", n)
+        if isinstance(base, ast.Name) and base.id in self.env and self.env[base.id][1] == "ArrIn":
+            sl = n.slice
+            if isinstance(sl, ast.Tuple) and len(sl.elts) == 2 and isinstance(sl.elts[0], ast.Slice) and sl.elts[0].lower is None \
+                    and sl.elts[0].upper is None and ast.unparse(sl.elts[1]) in ("np.newaxis", "None"):
+                return f"{self.env[base.id][0]}.newaxis", "ArrIn"
+            self.err("unsupported indexing of the caller's array", n)
         if _is_self(base, "_data") and self.cls == "sparse":
             k, tk = self.E(n.slice, pre)
             if tk != "Int": self.err("dict key is not the index", n)
@@ -302,6 +326,28 @@ class Fn:
     def call(self, n, pre):
         f = ast.unparse(n.func)
         A = n.args
+        if f == "len" and len(A) == 1 and not n.keywords and isinstance(A[0], ast.Attribute) and A[0].attr == "shape":
+            a, t = self.E(A[0], pre)
+            if t == "Shape": return f"{a}.ndim", "Nat"
+        if f == "type" and len(A) == 1 and isinstance(A[0], ast.Call) and isinstance(A[0].func, ast.Attribute) and A[0].func.attr == "item" \
+                and not A[0].args and isinstance(A[0].func.value, ast.Subscript) and isinstance(A[0].func.value.value, ast.Name) \
+                and A[0].func.value.value.id in self.env and self.env[A[0].func.value.value.id][1] == "ArrIn" \
+                and ast.unparse(A[0].func.value.slice).replace(" ", "") in ("(0,0)", "0,0"):
+            return f"{self.env[A[0].func.value.value.id][0]}.ty", "Ty"          # type(data[0,0].item()): the Python type of the items
+        if isinstance(n.func, ast.Attribute) and n.func.attr == "astype" and isinstance(n.func.value, ast.Name) and n.func.value.id in self.env \
+                and self.env[n.func.value.id][1] == "ArrIn" and len(A) == 1 and self.cls == "cont":
+            kws = {k.arg: k.value for k in n.keywords}
+            tgt = A[0]
+            ok = (isinstance(tgt, ast.Attribute) and tgt.attr == "dtype" and isinstance(tgt.value, ast.Attribute) and tgt.value.attr == "type"
+                  and isinstance(tgt.value.value, ast.Subscript) and _is_self(tgt.value.value.value, "_attr"))
+            if not ok: self.err("astype to something else than the dtype of the attribute's type", n)
+            if set(kws) != {"copy"} or not (isinstance(kws["copy"], ast.Constant) and kws["copy"].value is False):
+                self.err("astype without copy=False", n)
+            nm, tn = self.E(tgt.value.value.slice, pre)
+            if tn != "Str": self.err("attribute key is not the name", n)
+            v = self.fresh()
+            pre.append(("lets", f"let {v} := astypeNoCopy h {self.env[n.func.value.id][0]} (attrGet self.attr {nm}).type\nlet h := {v}.1", v))
+            return f"{v}.2", "ArrRef"
         if f == "len" and len(A) == 1 and not n.keywords:
             x = A[0]
             if isinstance(x, ast.Name) and x.id == "self" and self.cls == "cont": return "(contLen self)", "Nat"
@@ -402,6 +448,10 @@ class Fn:
                 out = f"match {rhs} with\n| .error e => .error e\n| .ok {v} =>\n{out}"
             elif kind == "matchobj":
                 out = f"match {rhs} with\n| .error e => .error e\n| .ok (_, h, {v}) =>\n{out}"
+            elif kind.startswith("matchopt:"):
+                out = f"match {rhs} with\n| none => {kind[9:]}\n| some {v} =>\n{out}"
+            elif kind == "lets":
+                out = rhs + "\n" + out
             else:
                 out = f"let {v} := {rhs}\n{out}"
         return out
@@ -417,6 +467,31 @@ class Fn:
             return self.ok("()")
         s, rest = stmts[0], stmts[1:]
         pre = []
+        self.try_err = getattr(s, "_try_err", None)
+        if isinstance(s, ast.Try):
+            # try: <bindings / asserts> except Exception: raise E   — every failure inside the block becomes E
+            if s.orelse or s.finalbody or len(s.handlers) != 1 or not (len(s.handlers[0].body) == 1 and isinstance(s.handlers[0].body[0], ast.Raise)):
+                self.err("unsupported try block", s)
+            ht = s.handlers[0].type
+            if ht is not None and ast.unparse(ht) not in ("Exception", "BaseException"): self.err("handler does not catch every exception", s)
+            err = self.raise_stmt(s.handlers[0].body[0])
+            for st in s.body:
+                if not isinstance(st, (ast.Assign, ast.Assert)): self.err("unsupported statement in a try block", st)
+                st._try_err = err
+            return self.S(s.body + rest)
+        if isinstance(s, ast.Assert):
+            if not self.try_err: self.err("assert outside a try block", s)
+            c, t = self.E(s.test, pre)
+            if t != "Bool": self.err("assert of a non-boolean", s)
+            return self.emit_pre(pre, f"if (!{c}) then\n  {self.try_err}\nelse\n" + self.S(rest))
+        if isinstance(s, ast.Assign) and len(s.targets) == 1 and isinstance(s.targets[0], ast.Attribute) and s.targets[0].attr == "_data" \
+                and isinstance(s.targets[0].value, ast.Subscript) and _is_self(s.targets[0].value.value, "_attr") and self.cls == "cont":
+            # self._attr[name]._data = <array>: the storage field of the attribute OBJECT held by the dict
+            nm, tn = self.E(s.targets[0].value.slice, pre)
+            if tn != "Str": self.err("attribute key is not the name", s)
+            a, t = self.E(s.value, pre)
+            if t != "ArrRef": self.err(f"binds a {t} as storage of the attribute", s)
+            return self.emit_pre(pre, f"let self := {{ self with attr := attrSet self.attr {nm} {{ (attrGet self.attr {nm}) with data := .array {a} }} }}\n" + self.S(rest))
         if isinstance(s, ast.Return):
             if self.check_mode: self.err("return inside a checking loop", s)
             return self.ret_stmt(s)
@@ -471,6 +546,7 @@ class Fn:
             if name in EXC: return f".error {EXC[name]}"
             if name == "Exception" and e.args:
                 msg = e.args[0]
+                if isinstance(msg, ast.JoinedStr) and msg.values and isinstance(msg.values[0], ast.Constant): msg = msg.values[0]
                 txt = msg.value if isinstance(msg, ast.Constant) else (ast.unparse(msg.func.value).strip("'\"") if isinstance(msg, ast.Call) and isinstance(msg.func, ast.Attribute) else "")
                 for k, v in EXC_MSG.items():
                     if isinstance(txt, str) and txt.startswith(k): return f".error {v}"
@@ -624,7 +700,7 @@ class Fn:
             if pre or t != self.ret: self.err(f"returns a {t}, expected {self.ret}")
             hs = " (h : Heap)" if "h " in a or " h)" in a else ""
             return f"/-- `{self.qual}` -/\ndef {self.lean}{ps}{hs} (self : {self.state}) : {LEAN_TY[self.ret]} :=\n  {a}\n"
-        extra = " (warnDup : Bool)" if self.qual.endswith("create_attribute") else ""
+        extra = " (warnDup : Bool)" if self.qual.endswith(("create_attribute", "register_array_as_attribute")) else ""
         txt = self.S(body)
         return (f"/-- `{self.qual}` -/\ndef {self.lean}{extra}{ps} (h : Heap) (self : {self.state}) : "
                 f"Except Err ({LEAN_TY[self.ret]} × Heap × {self.state}) :=\n{ind(txt)}\n")
